@@ -1,7 +1,7 @@
 (* C01 - A completed update holds exactly the transmitted image. Pinned statements only. *)
 From Coq Require Import List NArith.
 Require Import Nor Geom Store GRecon Sim Bridge.
-Require Recon Mgr MgrP.
+Require Recon Mgr MgrP MRecon MgrSim StartSim Consts.
 Import ListNotations.
 Open Scope N_scope.
 
@@ -35,5 +35,52 @@ Theorem c01_check_gates_mark : forall m u d,
                snd (Mgr.crc_valid m (Mgr.u_fw u) h d1) = Mgr.ROk tt.
 Proof. exact MgrP.check_gates_mark. Qed.
 
+(* The same statement on the EXECUTABLE byte-level model itself (Mgr.v: the functions extracted into the `fvm` driver whose device
+   operations are compared with the implementation's, operation by operation): for every manager geometry with at least two
+   slots, every fragment size / count start_update accepts, every device without an armed fault (arbitrary prior contents -
+   start_update erases), both arithmetic modes and both row generators, every image X and EVERY list of delivered
+   (index, payload) pairs consistent with X under the updater's own rows: if start_update succeeds, every handle_segment call
+   returns Ok and one of them reports FirmwareComplete, then every fragment's status byte is 0x33 and the firmware slot's data
+   region holds X.  Chain: StartSim.start_update_establishes, MgrSim.feed_is_grun (Mgr.flash_sto refines Sim.flash_sto:
+   MgrSim.flash_sto_refines + MSim.handle_block_ref), Bridge.flash_reconstruction_sound_hdr. *)
+Theorem c01_executable_model_update_sound :
+  forall m sz cnt (checked ffr : bool) (X : nat -> N) segs d d1 u d' u' outs,
+  (2 <= Mgr.m_slots m)%nat -> Mgr.m_size m - Consts.DATA_REGION_OFFSET < 4294967295 -> Mgr.dfail d = None ->
+  Mgr.start_update m sz cnt d = (d1, Mgr.ROk u) ->
+  (forall i, N.of_nat i < cnt -> X i < 2 ^ (8 * sz)) ->
+  Forall (Recon.consistent (Mgr.updater_row ffr (N.to_nat cnt)) (N.to_nat cnt) X) (map MgrSim.conv segs) ->
+  MgrSim.feed m checked ffr u d1 segs = Some (d', u', outs) ->
+  In Mgr.FirmwareComplete outs ->
+  forall i, (i < N.to_nat cnt)%nat ->
+    Mgr.dmem d' (Mgr.base m (Mgr.u_fw u) + Consts.HEADER_SIZE + N.of_nat i) = Consts.DATA_WRITTEN /\
+    read (Mgr.dmem d') (Mgr.base m (Mgr.u_fw u) + Consts.DATA_REGION_OFFSET + N.of_nat i * sz) sz = X i.
+Proof. exact StartSim.mgr_update_sound. Qed.
+
+(* [feed] is nothing but the successive handle_segment calls, ending at the first call that does not return Ok *)
+Theorem c01_feed_unfolds : forall m checked ffr u d idx1 payload tl,
+  MgrSim.feed m checked ffr u d ((idx1, payload) :: tl) =
+  match Mgr.handle_segment checked ffr m u idx1 payload (MRecon.bs (Mgr.u_rd u)) d with
+  | (d1, u1, Mgr.ROk o) => match MgrSim.feed m checked ffr u1 d1 tl with Some (d2, u2, os) => Some (d2, u2, o :: os) | None => None end
+  | _ => None
+  end.
+Proof. reflexivity. Qed.
+
+(* not vacuous: a concrete lossy session on a blank 4-slot device satisfies every hypothesis and completes (by computation) *)
+Theorem c01_executable_model_nonvacuous :
+  match Mgr.start_update StartSim.ex_m 4 3 (Mgr.blank_dev 70656 256) with
+  | (d1, Mgr.ROk u) =>
+      match MgrSim.feed StartSim.ex_m true false u d1 StartSim.ex_segs with
+      | Some (d', u', outs) => existsb (fun o => match o with Mgr.FirmwareComplete => true | Mgr.Consumed => false end) outs = true /\
+                               forallb (fun p => snd (MgrSim.conv p) =? Recon.enc StartSim.ex_P 3 StartSim.ex_X (fst (MgrSim.conv p))) StartSim.ex_segs = true /\
+                               forallb (fun i => read (Mgr.dmem d') (Mgr.base StartSim.ex_m (Mgr.u_fw u) + Consts.DATA_REGION_OFFSET + N.of_nat i * 4) 4 =? StartSim.ex_X i) [0;1;2]%nat = true
+      | None => False
+      end
+  | _ => False
+  end.
+Proof. exact StartSim.mgr_update_sound_nonvacuous. Qed.
+
 Print Assumptions c01_flash_reconstruction_sound.
+Print Assumptions c01_executable_model_update_sound.
+Print Assumptions c01_feed_unfolds.
+Print Assumptions c01_executable_model_nonvacuous.
 Print Assumptions c01_check_gates_mark.
